@@ -163,6 +163,9 @@ def build_polar(spec, state=None):
     guide = CircleGuide(p, c, R)
     system = System(t0=t0)
     system.add(p, guide)
+    if spec.get("actuator"):
+        a = spec["actuator"]
+        system.add(AnchorSpringActuator(p, a["anchor"], a["k"], a["l0"]))
     with contextlib.redirect_stdout(io.StringIO()):
         system.assemble()
     return system, p, guide
@@ -221,3 +224,59 @@ class KnifeEdge:
         from cardillo.math.approx_fprime import approx_fprime
 
         return approx_fprime(q, lambda q: self.gamma_u(t, q).T @ la_gamma)
+
+
+class AnchorSpringActuator:
+    """A (conservative) actuator on the polar particle: a linear spring to a fixed anchor point given in Cartesian
+    coordinates, written in the actuator interface (`W_tau(q) la_tau(q)`): the direction `W_tau` of its generalized
+    force changes with the configuration - the library's own actuators (on revolute joints) all have constant ones.
+
+    l(q) = |x(q) - a|,  la_tau = -k (l - l0),  W_tau = J(q)^T (x - a) / l,  V = k/2 (l - l0)^2
+    """
+
+    def __init__(self, particle, anchor, k, l0, name="anchor_spring"):
+        self.subsystem = particle
+        self.a = np.array(anchor, dtype=float)
+        self.k, self.l0 = float(k), float(l0)
+        self.nla_tau = 1
+        self.ntau = 1
+        self.tau = lambda t: np.zeros(1)
+        self.name = name
+
+    def assembler_callback(self):
+        self.qDOF = self.subsystem.qDOF
+        self.uDOF = self.subsystem.uDOF
+
+    def _geo(self, q):
+        r, ph = q
+        x = np.array([r * np.cos(ph), r * np.sin(ph)]) - self.a
+        J = np.array([[np.cos(ph), -r * np.sin(ph)], [np.sin(ph), r * np.cos(ph)]])
+        l = np.sqrt(x @ x)
+        return x, J, l
+
+    def W_tau(self, t, q):
+        x, J, l = self._geo(q)
+        return (J.T @ (x / l)).reshape(2, 1)
+
+    def la_tau(self, t, q, u):
+        _, _, l = self._geo(q)
+        return np.array([-self.k * (l - self.l0)])
+
+    def _f(self, q):
+        return self.W_tau(0.0, q)[:, 0] * self.la_tau(0.0, q, None)[0]
+
+    def Wla_tau_q(self, t, q, u):
+        h = 1e-6
+        out = np.zeros((2, 2))
+        for j in range(2):
+            e = np.zeros(2)
+            e[j] = h
+            out[:, j] = (self._f(q + e) - self._f(q - e)) / (2 * h)
+        return out
+
+    def Wla_tau_u(self, t, q, u):
+        return np.zeros((2, 2))
+
+    def E_pot(self, t, q):
+        _, _, l = self._geo(q)
+        return 0.5 * self.k * (l - self.l0) ** 2
